@@ -12,6 +12,7 @@ CONSTANTS
     SnapshotOnPush = TRUE
     WithLazy = TRUE
     WithCurrent = TRUE
+    Panics = TRUE
     Emit = TRUE
 VIEW tview
 INVARIANTS SamplerOncePerTrace DecisionGoverns UnsampledSilent SampledConsistent NoTraceNoParent FrameCarries
